@@ -483,6 +483,20 @@ TextPosCases ==
         eo \in {<<"pct", 25>>, <<"pct", 100>>, <<"abs", 4>>, <<"abs", -4>>, <<"abs", 0>>},
         sd \in {"default", "outside"}, o \in {0, 12}, d \in {<<0, 0>>, <<4, -8>>}, vt \in {FALSE}}
 
+\* multi-line text: one <tspan> per line, each at the text's x, stepping down by the line
+\* spacing (thousandths of an em; default 1050); the block hangs from the anchor when the
+\* text is top-aligned, stands on it when bottom-aligned, and is centred on it otherwise
+VAlign(loc, out) == IF IsTop(loc) THEN (IF out THEN "bottom" ELSE "top")
+                    ELSE IF IsBottom(loc) THEN (IF out THEN "top" ELSE "bottom") ELSE "middle"
+TextLineCases ==
+    {[fam |-> "textlines", shape |-> sh, box |-> B(8, 12, 40, 28), loc |-> l, side |-> sd, n |-> n, lsp |-> sp,
+      step |-> (IF sp = 0 THEN 1050 ELSE sp),
+      first |-> LET st == IF sp = 0 THEN 1050 ELSE sp
+                    va == VAlign(l, IsOutside(sh, sd))
+                IN CASE va = "top" -> 0 [] va = "bottom" -> -((n - 1) * st) [] OTHER -> -(((n - 1) * st) \div 2),
+      anchor |-> TextAnchor(B(8, 12, 40, 28), l, IsOutside(sh, sd), 4, 0, 0)] :
+        sh \in {"rect", "ellipse", "line"}, l \in LocNames, sd \in {"default", "inside", "outside"}, n \in 2..4, sp \in {0, 2000, 500}}
+
 TextPosIdentities ==
     c.fam = "textpos" =>
         \* inward means towards the centre, outward away from it; the centre location never moves
@@ -507,7 +521,7 @@ UnsatCases ==
         \* how the referring element uses it
         f \in {"dir", "loc", "loc-xy2", "loc-cxy", "scalar-x", "scalar-x2", "size", "line-xy1", "surround", "inside", "connector", "points"}}
 
-Cases == CASE Family = "unsat" -> UnsatCases [] Family = "solve" -> SolveCases
+Cases == CASE Family = "textlines" -> TextLineCases [] Family = "unsat" -> UnsatCases [] Family = "solve" -> SolveCases
            [] Family = "textpos" -> TextPosCases
            [] Family = "contain" -> ContainCases
            [] Family = "conn" -> ConnCases
